@@ -201,9 +201,13 @@ type builder struct {
 	crlfTag []string // which line each belongs to
 }
 
-func (b *builder) w(s string)              { b.b = append(b.b, s...) }
-func (b *builder) crlf(tag string)         { b.crlfs = append(b.crlfs, len(b.b)); b.crlfTag = append(b.crlfTag, tag); b.b = append(b.b, '\r', '\n') }
-func (b *builder) line(s, tag string)      { b.w(s); b.crlf(tag) }
+func (b *builder) w(s string) { b.b = append(b.b, s...) }
+func (b *builder) crlf(tag string) {
+	b.crlfs = append(b.crlfs, len(b.b))
+	b.crlfTag = append(b.crlfTag, tag)
+	b.b = append(b.b, '\r', '\n')
+}
+func (b *builder) line(s, tag string) { b.w(s); b.crlf(tag) }
 
 type msgSpec struct {
 	client   bool
